@@ -31,6 +31,7 @@ type Case struct {
 	From     string `json:"from,omitempty"`
 	Resolver bool   `json:"resolver"` // decorate / restore with import management (goast + guess)
 	Extras   bool   `json:"extras"`
+	Src2     string `json:"src2,omitempty"` // a second file decorated and restored with the same Decorator / Restorer afterwards
 }
 
 func isComment(n ast.Node) bool {
@@ -204,6 +205,25 @@ func check(sub string) func(t h.TB, c Case) {
 			h.Fail(t, sub, c, "DecorateFile: %v", err)
 		}
 		laws(t, sub, c, "decorator", af, df, dec.Dst.Nodes, dec.Ast.Nodes)
+		// one Decorator and one Restorer serve a whole package: the maps accumulate, and the laws
+		// must still hold for the first file after a second one has been processed
+		var af2 *ast.File
+		var df2 *dst.File
+		if c.Src2 != "" {
+			af2, err = parser.ParseFile(fset, "y.go", c.Src2, parser.ParseComments)
+			if err != nil {
+				t.Fatalf("harness: %v", err)
+			}
+			h.Guard(t, sub, c, func() { df2, err = dec.DecorateFile(af2) })
+			if err != nil {
+				if c.Resolver {
+					return
+				}
+				h.Fail(t, sub, c, "DecorateFile (second file): %v", err)
+			}
+			laws(t, sub, c, "decorator, first file after second", af, df, dec.Dst.Nodes, dec.Ast.Nodes)
+			laws(t, sub, c, "decorator, second file", af2, df2, dec.Dst.Nodes, dec.Ast.Nodes)
+		}
 
 		var res *decorator.Restorer
 		if c.Resolver {
@@ -218,6 +238,15 @@ func check(sub string) func(t h.TB, c Case) {
 			h.Fail(t, sub, c, "RestoreFile: %v", err)
 		}
 		laws(t, sub, c, "restorer", rf, df, res.Dst.Nodes, res.Ast.Nodes)
+		if df2 != nil {
+			var rf2 *ast.File
+			h.Guard(t, sub, c, func() { rf2, err = res.RestoreFile(df2) })
+			if err != nil {
+				h.Fail(t, sub, c, "RestoreFile (second file): %v", err)
+			}
+			laws(t, sub, c, "restorer, first file after second", rf, df, res.Dst.Nodes, res.Ast.Nodes)
+			laws(t, sub, c, "restorer, second file", rf2, df2, res.Dst.Nodes, res.Ast.Nodes)
+		}
 	}
 }
 
@@ -241,6 +270,13 @@ func genCase(sub string) func(t *rapid.T) (Case, bool) {
 			return Case{}, false
 		}
 		c := Case{Src: string(src), From: from, Resolver: rapid.IntRange(0, 2).Draw(t, "resolver") > 0, Extras: rapid.Bool().Draw(t, "extras")}
+		if rapid.IntRange(0, 2).Draw(t, "second") == 0 {
+			raw, _ := gen.SynFile(t, rapid.IntRange(10, 80).Draw(t, "size2"))
+			if _, err := parser.ParseFile(token.NewFileSet(), "", raw, 0); err == nil {
+				c.Src2 = raw
+				h.Label("two-files")
+			}
+		}
 		hasFunc, sels := false, 0
 		ast.Inspect(af, func(n ast.Node) bool {
 			switch n.(type) {
